@@ -117,7 +117,13 @@ Items == <<
   \* 56: |cased: 'Kw'
   [field |-> <<>>, chain |-> <<<<99, 97, 115, 101, 100>>>>, vals |-> <<SS(<<75, 119>>)>>, single |-> TRUE],
   \* 57: h6|hour|gte: 22
-  [field |-> <<104, 54>>, chain |-> <<<<104, 111, 117, 114>>, <<103, 116, 101>>>>, vals |-> <<SN(22, 1)>>, single |-> TRUE]
+  [field |-> <<104, 54>>, chain |-> <<<<104, 111, 117, 114>>, <<103, 116, 101>>>>, vals |-> <<SN(22, 1)>>, single |-> TRUE],
+  \* 58: fP|: 'c'
+  [field |-> <<102, 80>>, chain |-> <<>>, vals |-> <<SS(<<99>>)>>, single |-> TRUE],
+  \* 59: fQ|: 7
+  [field |-> <<102, 81>>, chain |-> <<>>, vals |-> <<SN(7, 1)>>, single |-> TRUE],
+  \* 60: fP|cased: 'D'
+  [field |-> <<102, 80>>, chain |-> <<<<99, 97, 115, 101, 100>>>>, vals |-> <<SS(<<68>>)>>, single |-> TRUE]
 >>
 KwLists == <<
   <<SS(<<102, 111, 111>>), SS(<<98, 97, 42, 114>>)>>,
